@@ -178,3 +178,7 @@ func verifLoad(path string) (*verifReplayFile, error) {
 }
 
 func verifBatch(on bool) {}
+
+func verifNarrow[T any](v T) T { return v }
+
+func verifFairSelect(on bool) {}
